@@ -18,9 +18,9 @@ def docNode (c : Cfg) : BNode → TextDoc.Node
   | .obj (.cons g k v rest) => .obj (docFieldsN c (.cons g k v rest))
   | .arr vs => .arr (docNodes c vs)
   | .rgb _ => .leaf ⟨[], false⟩
-def docFieldsN (c : Cfg) : BFields → List (Bytes × TextDe.Op × TextDoc.Node)
+def docFieldsN (c : Cfg) : BFields → List (TextDoc.Key × TextDe.Op × TextDoc.Node)
   | .nil => []
-  | .cons _ k v rest => ((leafText c k).getD [], .eq, docNode c v) :: docFieldsN c rest
+  | .cons _ k v rest => (TextDoc.Key.plain ((leafText c k).getD []), .eq, docNode c v) :: docFieldsN c rest
 def docNodes (c : Cfg) : BNodes → List TextDoc.Node
   | .nil => []
   | .cons v rest => docNode c v :: docNodes c rest
@@ -485,7 +485,7 @@ theorem br_sq (c : Cfg) (vs : BNodes) (et : Ty) (F : Nat) (hF : (trTy et).height
             simp [this]
 end
 
-theorem valueOfN_map_obj (f : Nat) (t : TextDe.Ty) (o : TextDe.Op) (dfs : List (Bytes × TextDe.Op × TextDoc.Node)) :
+theorem valueOfN_map_obj (f : Nat) (t : TextDe.Ty) (o : TextDe.Op) (dfs : List (TextDoc.Key × TextDe.Op × TextDoc.Node)) :
     TextDoc.valueOfN .w1252 (f + 1) (.map t) o (.obj dfs) =
       (TextDoc.mapVals .w1252 (TextDoc.valueOfN .w1252 f t) dfs []).map TextDe.Val.map := by
   simp only [TextDoc.valueOfN]
